@@ -518,6 +518,14 @@ impl<T: Eq + Hash> FrequentItemsSketch<T> {
             })?);
         }
 
+        // the counters are replayed through update_with_count, which sums them up
+        let mut values_sum = 0u64;
+        for value in &values {
+            values_sum = values_sum
+                .checked_add(*value)
+                .ok_or_else(|| Error::deserial("sum of item weights overflows u64"))?;
+        }
+
         let items = deserialize_items(cursor, active_items)?;
         if items.len() != active_items {
             return Err(Error::deserial(
